@@ -107,6 +107,19 @@ impl Run<'_> {
             .map_err(|e| format!("action: {e}"))?;
         self.end()
     }
+    /// `Storage::commit_heads` with nothing appended since the last commit (or since open): the
+    /// head-set record written by the commit itself is the only unsynced data.
+    fn recommit(&mut self) -> Result<(), String> {
+        use aranya_runtime::Storage as _;
+        self.begin();
+        let graph = self.graph;
+        let a = self.a.as_mut().ok_or("no client")?;
+        let st = a.provider().get_storage(graph).map_err(|e| format!("get_storage: {e}"))?;
+        let heads = st.get_heads().map_err(|e| format!("get_heads: {e}"))?.clone();
+        let fc = st.fact_cache().map_err(|e| format!("fact_cache: {e}"))?;
+        st.commit_heads(heads, fc).map_err(|e| format!("commit_heads: {e}"))?;
+        self.end()
+    }
     fn b_act(&mut self, action: TestActions) -> Result<(), String> {
         self.b.action(self.graph, &mut sink(), action, &mut self.bufs_b, MemSpill::new)
             .map_err(|e| format!("peer action: {e}"))
@@ -196,6 +209,8 @@ pub fn record(dir: &Path, cfg: &Cfg) -> Result<Recording, String> {
                 key += 1;
             }
             run.act(TestActions::DeleteValue(key - 1 - rng.below(n), 0))?;
+            // two commits back to back: nothing but the head-set record is dirty
+            run.recommit()?;
             // the peer catches up, both sides extend concurrently
             run.push_to_b()?;
             for _ in 0..(1 + rng.below(3)) {
@@ -213,6 +228,9 @@ pub fn record(dir: &Path, cfg: &Cfg) -> Result<Recording, String> {
             key += 1;
             if round == 0 || rng.chance(1, 3) {
                 run.reopen()?;
+                if rng.chance(1, 2) {
+                    run.recommit()?;   // first commit of a freshly opened writer, no append
+                }
             }
             run.act(TestActions::NoOp(key, 1))?;
         }
